@@ -47,37 +47,6 @@ fn k_c05_wheel_first_pop() {
 /// `cmp` (k_c05_timeoutdata_cmp, all pairs), the `now >= deadline` filter of next_expired and
 /// the counter logic of cancel.  So the deadlines are concrete per harness (one per order type
 /// of three entries, which keeps the heap's shape concrete) and `now` is symbolic.
-/// cancel(c) on a 3-entry heap with symbolic deadlines: exactly the entry with counter c
-/// leaves (fast path = top of heap, slow path = retain; `which` = 3: a counter not in the
-/// heap), next_deadline afterwards is the minimum of the survivors (no residue, order kept).
-macro_rules! cancel_family { ($($name:ident: $which:expr;)*) => { $(
-#[kani::proof]
-#[kani::unwind(8)]
-fn $name() {
-    let mut w = TimerWheel::new();
-    let ds = [any_s(), any_s(), any_s()];
-    let cs = [w.insert(ds[0], tok(10)), w.insert(ds[1], tok(11)), w.insert(ds[2], tok(12))];
-    let which: usize = $which;
-    let c = if which < 3 { cs[which] } else { kani::any() };
-    kani::assume(which < 3 || (c != cs[0] && c != cs[1] && c != cs[2]));
-    w.cancel(c);
-    assert!(w.heap.len() == if which < 3 { 2 } else { 3 }, "C05.whl.cancel_removes_exactly_one_entry");
-    let min2 = |a: Instant, b: Instant| if a <= b { a } else { b };
-    let expect = if which == 0 { min2(ds[1], ds[2]) } else if which == 1 { min2(ds[0], ds[2]) } else if which == 2 { min2(ds[0], ds[1]) } else { min2(ds[0], min2(ds[1], ds[2])) };
-    assert!(w.next_deadline() == Some(expect), "C05.whl.survivors_keep_order_after_cancel");
-    // the survivor on top is not the cancelled one
-    if let Some(top) = w.heap.peek() { assert!(top.counter != c, "C05.whl.cancelled_entry_never_pops"); }
-    kani::cover!(true);
-    std::mem::forget(w);
-}
-)* } }
-cancel_family! {
-    k_c05_wheel_cancel_0: 0;
-    k_c05_wheel_cancel_1: 1;
-    k_c05_wheel_cancel_2: 2;
-    k_c05_wheel_cancel_x: 3;
-}
-
 /// TimeoutData's order is the reverse of deadline order (max-heap = earliest first)
 #[kani::proof]
 #[kani::unwind(3)]
